@@ -366,6 +366,13 @@ func (fr *Frame) evalUnary(s *State, x *ast.UnaryExpr) *Val {
 	case token.AND:
 		return fr.addrOf(s, x.X)
 	case token.ARROW:
+		// sequential use of a result channel: the receive yields the last value sent on it
+		ch := fr.eval(s, x.X)
+		if ct, ok := fr.typeOf(x.X).Underlying().(*types.Chan); ok && ch != nil {
+			hn, hs := fr.eng.chanHeap(ct.Elem())
+			fr.eng.assumptions["a channel receive yields the last value sent on that channel (sequential use of one-slot result channels; no queueing, no concurrent senders)"] = true
+			return &Val{T: ct.Elem(), S: fr.vc.define("rcv", fr.eng.sortOf(ct.Elem()), fmt.Sprintf("(select %s %s)", s.heap(hn, hs), ch.S))}
+		}
 		fr.unsupported(x.Pos(), "channel receive")
 		return fr.freshVal(s, t, "unsup")
 	}
